@@ -66,7 +66,34 @@ def run(cx, out):
         # R18.2
         sk = [f for f in facts.methods('Decode', 'skip')]
         selfs = sorted(f['self'] for f in sk)
-        out.ob('R18.2', 'skip overrides [%s]' % cfg, selfs == ['[T; N]'], 'skip is overridden for %s; only the audited [T; N] override is validated' % selfs, '-')
+        out.ob('R18.2', 'skip overrides [%s]' % cfg, '[T; N]' in selfs, 'the audited [T; N] skip override disappeared', '-')
+        # any other override is validated by the mirror rule: it must read exactly what decode reads (results discarded)
+        D = decshape.DecShapes(facts, S)
+        from . import c02
+        for f in sk:
+            if f['self'] == '[T; N]':
+                continue
+            imp = [i for i in facts.impls_of('Decode') if i['path'] == f.get('impl') and i['self'] == f['self']]
+            if not imp:
+                out.fail('R18.2', 'skip override of %s [%s]' % (f['self'], cfg), 'impl not found', f['loc'])
+                continue
+            ws, ts, vs = D.dec_shape(imp[0], 'skip')
+            wd, td, vd = D.dec_shape(imp[0], 'decode')
+            a, b = c02.norm(ws), c02.norm(wd)
+            ok = a == b and not c02.find_kind(a, 'opaque')
+            # same strictness of tag dispatch
+            if ok:
+                from . import c03
+                at = [x for x in items(ts) if x[0] == 'alt']
+                bt = [x for x in items(td) if x[0] == 'alt']
+                if len(at) == len(bt):
+                    for x, y in zip(at, bt):
+                        if c03.accepted_tags(x)[:2] != c03.accepted_tags(y)[:2]:
+                            ok = False
+                else:
+                    ok = False
+            out.ob('R18.2', 'skip override of %s [%s]' % (f['self'], cfg), ok,
+                   'skip reads %s but decode reads %s (or accepts different tags / does not return Ok(()))' % (str(a)[:160], str(b)[:160]), f['loc'])
         for f in sk:
             if f['self'] != '[T; N]':
                 continue
